@@ -16,6 +16,34 @@ def register_lemma(w, lem):
     w.__dict__.setdefault("lemmas", {})[lem["name"]] = lem
 
 
+def _check_ih_shape(ih, pred):
+    import ast as _a
+    body = [b for b in ih.fnode.body
+            if not (isinstance(b, _a.Expr) and isinstance(b.value, _a.Constant))]
+    ok = len(body) == 1 and isinstance(body[0], _a.Return) and isinstance(body[0].value, _a.Call) \
+        and isinstance(body[0].value.func, _a.Name) and body[0].value.func.id == pred \
+        and len(body[0].value.args) >= 1 and isinstance(body[0].value.args[0], _a.Call) \
+        and isinstance(body[0].value.args[0].func, _a.Name) \
+        and body[0].value.args[0].func.id == "tail" \
+        and isinstance(body[0].value.args[0].args[0], _a.Name) \
+        and body[0].value.args[0].args[0].id == ih.params[0][0]
+    if not ok:
+        raise ValueError(f"{ih.name} is not of the form `return {pred}(tail(l), ...)`")
+
+
+def _eval_hint(w, sf, text, consts):
+    """Evaluate a Bool spec expression over the lemma's parameters."""
+    import ast as _a
+    from . import symex
+    from .values import Z
+    ctx = symex.Ctx(w, [], [[]])
+    ex = symex.Exec(w, f"lemma-hint::{sf.name}", sf.fnode, {}, sf.module_tree, spec_mode=True)
+    ex.ctx = ctx
+    env = {pn: Z(c) for (pn, _), c in zip(sf.params, consts)}
+    v = ex.ev(_a.parse(text.strip(), mode="eval").body, env)
+    return ex.to_bool(v)
+
+
 def _extra_consts(w, sf):
     return [z3.Const(f"lem.{pn}", specs._sort_of(w, ann)) for pn, ann in sf.params[1:]]
 
@@ -78,11 +106,28 @@ def obligations(w, name):
                         note="list induction, base")
         ob.fuel = fuel
         obs.append(ob)
-        pc = [S.is_cons(l), sf.f(S.tail(l), *extra)]
+        # induction hypothesis, by default at the same extra arguments; "ih_cons_head": [p, …]
+        # instantiates the (universally quantified) extra list parameter p at cons(head l, p)
+        ih_extra = list(extra)
+        for pn in lem.get("ih_cons_head", []):
+            k = [x[0] for x in sf.params[1:]].index(pn)
+            ih_extra[k] = S.cons(S.head(l), extra[k])
+        pc = [S.is_cons(l), sf.f(S.tail(l), *ih_extra)]
+        if lem.get("ih_pred"):
+            # generalised hypothesis: a spec function whose body is literally
+            #     return <pred>(tail(<first parameter>), <any arguments>)
+            # i.e. the lemma at the tail with other (universally quantified) extra arguments
+            ih = w.specs[lem["ih_pred"]]
+            _check_ih_shape(ih, lem["pred"])
+            pc.append(ih.f(l, *extra))
         for u in lem.get("uses", []):
             ul = w.lemmas[u]
             if ul["induct"] == "node":
                 pc.append(w.specs[ul["pred"]].f(S.head(l), *extra))
+        for text in lem.get("hints", []):
+            # instances of lemmas proved elsewhere (named in "hint_lemmas"), written over the
+            # lemma's own parameters
+            pc.append(_eval_hint(w, sf, text, [l] + list(extra)))
         ob = Obligation(key, "lemma", f"{name}[cons]", pc, sf.f(l, *extra), None,
                         note="list induction, step")
         ob.fuel = fuel
